@@ -352,6 +352,8 @@ where
         }
 
         let value = match (values, inline_binary) {
+            // an empty sequence is written without "Value", like any empty value
+            (None, None) if vr == VR::SQ => Value::Sequence(Vec::new().into()),
             (None, None) => PrimitiveValue::Empty.into(),
             (None, Some(inline_binary)) => {
                 // decode from Base64
